@@ -77,7 +77,8 @@ FLOORS = {
         "IDX": 4,
         "M2": 16,
         "M3": 26,
-        "I12": 20
+        "I12": 20,
+        "NC1": 30
     },
     "C12": {
         "R1": 28,
@@ -229,6 +230,8 @@ def c11(prog, rep):
     from . import dimrules as DM
     DM.rule_dim1(prog, rep, C.C11_UNITS)
     DM.rule_wid2(prog, rep, [u_ for u_ in C.C11_UNITS if not u_.endswith('qhash.c')])     # hash arithmetic is compared as value graphs under C18
+    from . import nullrules as NR
+    NR.rule_nc1(prog, rep, C.C11_UNITS)
     rep.explanation = (
         'Structural memory-safety clauses over the 11 anchored units, all CFG paths: M1 every memcpy/strcpy/strncpy whose '
         'operands can share a base object (origins over reaching definitions) must be provably disjoint (affine distance = '
